@@ -224,15 +224,20 @@ def rand_history(rng):
     h.append(('igroup', 'g', rng.choice([1, 2, 3])))
     h.append(('alloc', None, 'a1', [1, 1, 1], rng.choice([100, 90]), rng.choice([None, 0.5, 1.5]), 0))
     n = 0
+    # instances of one affinity share their limits (quantifier of C04)
+    limits = {aff: rng.choice([None, None, {'server': 1}, {'rack': 1}, {'cell': 2}, {'rack': 2, 'server': 1}])
+              for aff in ('p.a', 'p.b')}
     for step in range(rng.randint(6, 16)):
         c = rng.random()
         if c < 0.35:
             n += 1
             h.append(('app', 'p.a#%d' % n, rng.choice([None, None, 'p2']), rng.choice([None, 'a1']),
                       rng.choice([0, 1, 10, 50]), [rng.choice([0, 1, 1, 2, 2, 3]) for _ in range(3)],
-                      rng.choice(['p.a', 'p.b']), rng.choice([None, {'server': 1}, {'rack': 1}, {'cell': 2}]),
+                      None, None,
                       rng.choice([None, None, 'g']), rng.choice([0, 50, None]), rng.choice([0, 0, 500]),
                       rng.choice([0, 0, 2])))
+            aff = rng.choice(['p.a', 'p.b'])
+            h[-1] = h[-1][:6] + (aff, limits[aff]) + h[-1][8:]
         elif c < 0.42 and n:
             h.append(('rmapp', 'p.a#%d' % rng.randint(1, n)))
         elif c < 0.45 and n:
